@@ -197,11 +197,11 @@ theorem muggle_async_logger_log_c18 (f : Sched) (h : Heap) :
   alogLog_spec f h
 
 /-- `muggle_merge_sort`: scratch array; failure reported, nothing left -/
-theorem muggle_merge_sort_c18 (f : Sched) (h : Heap) :
-    ∃ ok h', mergeSort f h = .ok (ok, h') ∧ (ok = true ↔ f h.nacq = false) ∧
+theorem muggle_merge_sort_c18 (f : Sched) (n : Nat) (h : Heap) :
+    ∃ ok h', mergeSort f n h = .ok (ok, h') ∧ (ok = true ↔ (n < 2 ∨ f h.nacq = false)) ∧
       h'.mem = h.mem ∧ h'.fds = h.fds := by
-  cases hf : f h.nacq <;>
-  simp [mergeSort, alloc, free, hf, bind, Except.bind, pure, Except.pure]
+  by_cases hn : n < 2 <;> cases hf : f h.nacq <;>
+  simp [mergeSort, alloc, free, hf, hn, bind, Except.bind, pure, Except.pure]
 
 /-- `muggle_trie_insert`, keys of every length — **partial**: the full clause ("releases
 everything it had acquired") is *false* for the trie (see `trie_insert_keeps_prefix_nodes`);
